@@ -3,7 +3,7 @@ M: TLC model-checks ScpiStatus on bounded alphabets.  X: the implementation's ow
 explored over the same alphabets (snapshot/restore) and every transition validated by TLC against
 ScpiStatus (TVStatus).  V: random walks over full 16-bit values, all 65536 error codes."""
 import json, os, subprocess, sys, collections
-import lib, suite_traces, composition
+import lib, suite_traces, composition, regtree
 
 PROPERTIES = ["C11", "C12"]
 
@@ -142,8 +142,9 @@ def run(pid, tier):
             rep.violation('driver-failure', dict(mode='codes', rc=d['rc'], stderr=d['stderr'].decode(errors='replace')[-2000:]))
         else:
             validate(rep, pid, w + '/codes.ndjson', 'codes')
-    suite_traces.validate(rep, pid + ':')
-    composition.validate(rep, pid, tier)       # hook traces of the repository's own test programs
+    suite_traces.validate(rep, pid + ':')      # hook traces of the repository's own test programs
+    composition.validate(rep, pid, tier)
+    regtree.validate(rep, pid, tier)           # the generic register tree in a USE_CUSTOM_REGISTERS build
     rep.cov['exhaustive'] = True
     rep.cov['explanation'] = 'exhaustive within the listed alphabets (model and implementation state graphs), sampled beyond (random walks)'
     import shutil
@@ -166,7 +167,7 @@ def replay(pid, path):
 
 MANIFEST_C11 = dict(engine='explore+tlc-trace', ref='DESIGN.md section 6 C11',
    technique='TLC model checking of ScpiStatus.tla + TLC validation of every transition of the implementation state graph and of random walks',
-   text='TLC exhaustively checks StbCoherent and the action properties on bounded alphabets of ScpiStatus.tla; the real library is explored breadth-first over the same alphabets (snapshot/restore, incl. ring indices) and every transition, plus seeded 16-bit random walks, is validated by TLC as the step the specification prescribes (also without an error callback installed and with writes to the MSS position). In addition the composition Scpi.tla is model-checked and random messages of a minimal instrument, and the hook traces of the repository test programs, are validated against it. Exhaustive within the alphabets, sampled beyond.',
+   text='TLC exhaustively checks StbCoherent and the action properties on bounded alphabets of ScpiStatus.tla; the real library is explored breadth-first over the same alphabets (snapshot/restore, incl. ring indices) and every transition, plus seeded 16-bit random walks, is validated by TLC as the step the specification prescribes (also without an error callback installed and with writes to the MSS position). In addition the composition Scpi.tla is model-checked and random messages of a minimal instrument, and the hook traces of the repository test programs, are validated against it; and the generic register tree ScpiRegTree.tla (of which the standard registers are one instance: lemma StandardAgreement) is model-checked and bound to a USE_CUSTOM_REGISTERS build with a three-level user tree, transition filters, enable-less and parent-less groups (exploration over the model alphabets + random walks, every transition validated by TLC). Exhaustive within the alphabets, sampled beyond.',
    note='Trusted: TLC, the driver projection (registers read from the context, queue content). Representative bits per register instead of all 16; direct STB writes excluded; SRE bit 6 ignored.')
 MANIFEST_C12 = dict(engine='explore+tlc-trace', ref='DESIGN.md section 6 C12',
    technique='TLC model checking of ScpiStatus.tla + TLC validation of implementation transitions, all 65536 codes',
